@@ -69,6 +69,7 @@ type blkInfo struct {
 
 type env struct {
 	x        *simkit.Ctx
+	viaSync  bool // the delivery in progress arrives without a peer id (sync path)
 	prop     string
 	net      *simnode.Net
 	nut      *simnode.Node
@@ -365,7 +366,11 @@ func (w *World) Run(x *simkit.Ctx) {
 		case "branch":
 			e.doBranch(st.A)
 		case "deliver":
+			// B = 2: the block comes from the syncer's block processor (no peer id is attached on
+			// that path); otherwise from a peer's new-block notice / block response
+			e.viaSync = st.B == 2
 			e.doDeliver(st.A)
+			e.viaSync = false
 		case "cdeliver":
 			e.doCrashDeliver(st)
 		case "forge":
@@ -633,7 +638,12 @@ func (e *env) doDeliver(l int) {
 	before := e.observe()
 	oldBest := e.best
 	var err error
-	pan := catch(func() { err = e.nut.AddBlock(b.b, "peer") })
+	peer := types.PeerID("peer")
+	if e.viaSync {
+		peer = ""
+		x.Probe("delivered-on-the-sync-path")
+	}
+	pan := catch(func() { err = e.nut.AddBlock(b.b, peer) })
 	if (b.kind == fID || b.kind == fTxRoot || b.kind == fHeight) && e.observe() == before {
 		// A false identifier over genuine content, or a re-signed header whose tx root does not match
 		// the body: the node may drop it at the door (nothing stored, not even as an orphan) or handle
